@@ -1692,10 +1692,13 @@ func (s *Server) loadSubscriptions(v []storage.Subscription) {
 			NoLocal:           sub.NoLocal,
 			Identifier:        sub.Identifier,
 		}
+		cl, ok := s.Clients.Get(sub.Client)
+		if !ok {
+			continue // the session this subscription belonged to no longer exists
+		}
+
 		if s.Topics.Subscribe(sub.Client, sb) {
-			if cl, ok := s.Clients.Get(sub.Client); ok {
-				cl.State.Subscriptions.Add(sub.Filter, sb)
-			}
+			cl.State.Subscriptions.Add(sub.Filter, sb)
 		}
 	}
 }
